@@ -170,19 +170,18 @@ func (e *Explorer) Run() {
 					return
 				}
 				if op.Kind == "ADV" {
-					jumped := cs.st.Now >= e.Now0+LongJump
-					if op.D == LongJump {
-						if jumped || cs.st.Now+LongJump+span > math.MaxUint32 {
+					jumpAmt := int64(0) // one long jump per path (LongJump or LongJump2); the horizon moves with it
+					if cs.st.Now >= e.Now0+LongJump2 {
+						jumpAmt = LongJump2
+					} else if cs.st.Now >= e.Now0+LongJump {
+						jumpAmt = LongJump
+					}
+					if op.D == LongJump || op.D == LongJump2 {
+						if jumpAmt > 0 || cs.st.Now+op.D+span > math.MaxUint32 {
 							continue
 						}
-					} else {
-						h := horizon
-						if jumped {
-							h += LongJump
-						}
-						if cs.st.Now+op.D > h {
-							continue
-						}
+					} else if cs.st.Now+op.D > horizon+jumpAmt {
+						continue
 					}
 				}
 				ns, nr, ok := e.Step(cs.st, cs.rings, op, d, cs.path)
